@@ -154,7 +154,10 @@ func monitorInter(sc iscenario, ups []upstream, looks []lookup, s *vs.Sched) (ke
 			continue
 		}
 		for _, rr := range ups {
-			if rr.key == q.key && rr.at < call.start && rr.at >= last.started {
+			// (overlapping = obtained after the last one's fetch began, or begun at the same instant: two first lookups racing.
+			// An answer obtained at the very instant the last fetch began is its predecessor on the same entry - the waiter
+			// took over the entry lock - and has no bearing on what is cached now.)
+			if rr.key == q.key && rr.at < call.start && (rr.at > last.started || rr.started == last.started) {
 				gen = append(gen, rr)
 			}
 		}
@@ -226,7 +229,10 @@ func interScenarios(thorough bool) []iscenario {
 		for b := a; b < len(progs); b++ {
 			for _, lat := range []int{0, 1} {
 				for _, zone := range [][]int{nil, {1}, {1, 4}} {
-					for _, fail := range [][2]int{{-1, 0}, {1, 3}, {0, 1}} {
+					for _, fail := range [][2]int{{-1, 0}, {1, 3}, {0, 1}, {1, 2}} {
+						if fail == [2]int{1, 2} && lat == 0 {
+							continue // a one-second failure window only matters when a fetch spans it
+						}
 						out = append(out, iscenario{Threads: [][]istep{progs[a], progs[b]}, Latency: lat, ZoneAt: zone, FailFrom: fail[0], FailTo: fail[1]})
 					}
 				}
